@@ -263,8 +263,10 @@ int main(int argc, char** argv) {
     vf::section_index("pairs", n2 * n2, [&](long idx) { Program p; p.ntests = 2; p.tests[0] = s2[idx % n2]; p.tests[1] = s2[idx / n2]; run_program(p); });
     vf::require_outcomes("pairs", 6);
     if (T) {
-        vf::info("pairs3.bound", vf::fmt("2 tests, all %ld x %ld scripts with <= 3 ops each", n3, n3));
-        vf::section_index("pairs3", n3 * n3, [&](long idx) { Program p; p.ntests = 2; p.tests[0] = s3[idx % n3]; p.tests[1] = s3[idx / n3]; run_program(p); });
+        // pairs with <= 3 ops per test over the first 8 ops (the reallocation and bulk ops: single with <= 3, pairs with <= 2, triples1)
+        std::vector<TestScript> u3; build_scripts(3, u3, 8); long m3 = (long)u3.size();
+        vf::info("pairs3.bound", vf::fmt("2 tests, all %ld x %ld scripts with <= 3 ops each over {n,m,f,F,1,2,I,X}", m3, m3));
+        vf::section_index("pairs3", m3 * m3, [&](long idx) { Program p; p.ntests = 2; p.tests[0] = u3[idx % m3]; p.tests[1] = u3[idx / m3]; run_program(p); });
         // triples: <= 2 ops per test over the first 8 ops (the reallocation and bulk ops are covered by single/pairs/pairs3/triples1)
         std::vector<TestScript> t2; build_scripts(2, t2, 8); long m2 = (long)t2.size();
         vf::info("triples.bound", vf::fmt("3 tests, all %ld^3 scripts with <= 2 ops each over {n,m,f,F,1,2,I,X}", m2));
